@@ -730,7 +730,7 @@ const std::vector<VOp> &variant_ops() {
 void run_variant(vf::Ctx &c) {
   g_live[0] = g_live[1] = 0;
   g_armed = false;
-  int depth = c.thorough() ? 3 : 2;
+  int depth = atoi(c.opt().get("variant-depth", c.thorough() ? "4" : "3").c_str());
   std::string hist, last;
   {
     VWorld<StdV> ws;
